@@ -92,4 +92,25 @@ CHECKS["C09"] = {
     ],
 }
 
+CHECKS["C18"] = {
+    "pkg": "./checks/c18",
+    "level": "exploration",
+    "rule": "sequential: rapid state machine on a real TxPool against a pending-set model with three states per transaction (pending, may-be-gone after a selection past its expiry, absent) plus "
+            "optional index entries left behind by the documented quirk (deleting a sub transaction removes its pending box). Universe per case: 4..10 plain txs with expiries {100,200,300,1000}, "
+            "1..4 boxes over 1..3 of them, fillers in runs of 60..140 for capacity doubling. Ops: AddTx, AddTxs, GetTxs(all / size 0..5) at times around the expiries, DelTxs of plain txs, sub txs and boxes, "
+            "bulk deletion. Oracles after every selection: no duplicates, nothing absent/deleted/expired, no box with its sub or two boxes sharing a sub, every pending unexpired tx present when the selection is not cut; "
+            "AddTx verdict must be justified by the model. non-trivial = history with a box/sub overlap, an expiry or a capacity doubling; distinct by op list digest. "
+            "concurrent: 2..4 goroutines x 1..3 ops (AddTx / DelTxs / GetTxs) released from a barrier after a generated sequential prefix (optionally past the first capacity doubling), built with -race; "
+            "the recorded history (start/end stamps, results) must be linearizable w.r.t. the deterministic part of the specification (brute-force search with memoisation); non-trivial = >= 4 concurrent ops touching a box or its subs.",
+    "level_text": "Model-based generated operation sequences against a reference pending-set model (sequential), linearizability of small concurrent histories under the race detector, and fork switches on a real node; "
+                  "exploration bounded by sequence length and universe size.",
+    "level_note": "Trusted: the pending-set model. The documented quirk (a deleted sub transaction removes its box and leaves unusable index entries) is modelled as optional behaviour, so it is neither required nor reported.",
+    "technique": "rapid stateful model-based testing (+ brute-force linearizability check of generated concurrent histories)",
+    "assumptions": ["a box is valid only if it expires no later than its sub transactions (checkBoxTx)", "transactions are identified by hash"],
+    "units": [
+        {"name": "sequential", "test": "TestC18Sequential", "quick": {"checks": 1500, "shards": 4, "timeout": 900}, "thorough": {"checks": 15000, "shards": 16, "timeout": 3000}},
+        {"name": "concurrent", "test": "TestC18Concurrent", "race": True, "quick": {"checks": 600, "shards": 2, "timeout": 900}, "thorough": {"checks": 8000, "shards": 8, "timeout": 3000}},
+    ],
+}
+
 NOT_APPLICABLE = {}
